@@ -30,6 +30,10 @@ def FA(id_, *args):
 
 def act_text(act, gname):
     def arg(a):
+        if isinstance(a, tuple) and a[0] == "vec":
+            return ", ".join("crate::rec_%s::wv(&%s)[%d]" % (gname, a[1], k) for k in range(4))
+        if isinstance(a, tuple) and a[0] == "opt":
+            return ", ".join("crate::rec_%s::wo(%s)[%d]" % (gname, a[1], k) for k in range(2))
         return "%s as u8" % a[1] if isinstance(a, tuple) else a
     if act[0] == "user":
         return "crate::rec_%s::r(%d, &[%s])" % (gname, act[1], ", ".join(arg(a) for a in act[2]))
@@ -147,6 +151,16 @@ def action_grammars():
         NT("IB", [AA(["-", N("y", Tm("n"))], FA(54, "y"))], inline=True, ty="u8"),
     ], tags=["inlined nonterminal mentioning two different inlined nonterminals", "inline dependency order"])))
 
+    # --- repetition operators and groups: Vec in input order, Option, selected symbol of a group (C13 values)
+    gs.append(finalize(Grammar("act_reps", terms("n:u8 , ; ( +"), [
+        NT("S", [
+            AA([N("v", Rep(Tm("n"), "*")), ";", N("o", Rep(Tm("n"), "?")), N("w", Rep(Grp((Tm(","), Sel(Tm("n")))), "+"))],
+               UA(60, ("vec", "v"), ("opt", "o"), ("vec", "w"))),
+            AA(["(", N("p", Rep(Nt("Q"), "+")), N("q", Rep(Grp((Tm("+"), Sel(Nt("Q")))), "?"))], UA(61, ("vec", "p"), ("opt", "q"))),
+        ], pub=True, ty="u8"),
+        NT("Q", [AA([N("a", Tm("n")), ","], UA(62, "a"))], ty="u8"),
+    ], tags=["X*", "X+", "X?", "group with a selected symbol", "Vec order", "Option"])))
+
     # --- fallible non-inlined, start reduction
     gs.append(finalize(Grammar("act_fallible", terms("n:u8 + ;"), [
         NT("S", [AA([N("a", Nt("X")), ";"], FA(30, "a")), AA([";"], FA(31))], pub=True, ty="u8"),
@@ -192,8 +206,29 @@ class SpecProd:
     ty: str
 
 
+def display(s):
+    """LALRPOP's own printing of a symbol (used to match generated production comments)."""
+    if isinstance(s, Tm):
+        return '"%s"' % s.name
+    if isinstance(s, Nt):
+        return s.name
+    if isinstance(s, Rep):
+        return display(s.sym) + s.op
+    if isinstance(s, Grp):
+        return "(" + " ".join(display(x) for x in s.syms) + ")"
+    if isinstance(s, Sel):
+        return "<" + display(s.sym) + ">"
+    if isinstance(s, Named):
+        return "<%s:%s>" % (s.name, display(s.sym))
+    if isinstance(s, Look):
+        return s.kind
+    raise TypeError(s)
+
+
 def _cls_of_sym(g, defs, s):
     s0 = strip(s)
+    if isinstance(s0, Rep) and s0.op == "+":
+        return "vec"
     if isinstance(s0, Tm):
         t = [t for t in g.terms if t.name == s0.name][0]
         return "u8" if t.payload == "u8" else "tok"
@@ -208,14 +243,23 @@ def _display(s):
     s0 = strip(s)
     if isinstance(s0, Tm):
         return '"%s"' % s0.name
+    if isinstance(s0, (Rep, Grp)):
+        return display(s0)
     return s0.name
 
 
-def expand_alt(g, defs, nt, alt):
-    """All inlined expansions of one alternative: list of (leaves, item_exprs, lookpos) where
-    item i of the alternative evaluates to item_exprs[i]; lookarounds are ("L"|"R", position in leaves)."""
+def group_value(g, defs, grp, vals):
+    """documented value of a parenthesised group: the selected symbols (single value or tuple), all of them if none is selected"""
+    sel = [v for s, v in zip(grp.syms, vals) if isinstance(s, (Sel, Named))]
+    if not sel:
+        sel = list(vals)
+    return sel[0] if len(sel) == 1 else ("tuple", sel)
+
+
+def expand_seq(g, defs, syms):
+    """Expansions of a symbol sequence (inline nonterminals, `?`, `*`, groups spliced): list of (leaves, [value expr per symbol])."""
     results = [([], [])]
-    for s in alt.syms:
+    for s in syms:
         s0 = strip(s)
         new = []
         if isinstance(s0, Look):
@@ -226,13 +270,57 @@ def expand_alt(g, defs, nt, alt):
             for leaves, exprs in results:
                 for salt in sub.alts:
                     for sleaves, snode in expand_alt_node(g, defs, sub, salt):
-                        off = len(leaves)
-                        new.append((leaves + sleaves, exprs + [("subnode", snode, off, len(sleaves))]))
+                        new.append((leaves + sleaves, exprs + [("sub", _shift_node(snode, len(leaves)))]))
+        elif isinstance(s0, Grp):
+            for leaves, exprs in results:
+                for sleaves, svals in expand_seq(g, defs, list(s0.syms)):
+                    off = len(leaves)
+                    new.append((leaves + sleaves, exprs + [group_value(g, defs, s0, [_shift(v, off) for v in svals])]))
+        elif isinstance(s0, Rep) and s0.op == "?":
+            for leaves, exprs in results:
+                new.append((leaves, exprs + [("none",)]))
+                for sleaves, svals in expand_seq(g, defs, [s0.sym]):
+                    off = len(leaves)
+                    new.append((leaves + sleaves, exprs + [("some", _shift(svals[0], off))]))
+        elif isinstance(s0, Rep) and s0.op == "*":
+            plus = Rep(s0.sym, "+")
+            for leaves, exprs in results:
+                new.append((leaves, exprs + [("vec", [])]))
+                new.append((leaves + [Leaf(display(plus), "vec")], exprs + [("leaf", len(leaves))]))
+        elif isinstance(s0, Rep) and s0.op == "+":
+            for leaves, exprs in results:
+                new.append((leaves + [Leaf(display(s0), "vec")], exprs + [("leaf", len(leaves))]))
         else:
             for leaves, exprs in results:
                 new.append((leaves + [Leaf(_display(s), _cls_of_sym(g, defs, s))], exprs + [("leaf", len(leaves))]))
         results = new
     return results
+
+
+def plus_nonterminals(g):
+    """every `X+` (also the one behind `X*`) used in the grammar -> Rep"""
+    found = {}
+
+    def walk(s):
+        s0 = strip(s)
+        if isinstance(s0, Rep):
+            if s0.op in "+*":
+                p = Rep(s0.sym, "+")
+                found[display(p)] = p
+            walk(s0.sym)
+        elif isinstance(s0, Grp):
+            for x in s0.syms:
+                walk(x)
+    for n in g.nts:
+        for a in n.alts:
+            for s in a.syms:
+                walk(s)
+    return found
+
+
+def expand_alt(g, defs, nt, alt):
+    """All inlined expansions of one alternative: list of (leaves, item value exprs); lookarounds stay ("look", kind, pos)."""
+    return expand_seq(g, defs, list(alt.syms))
 
 
 def _shift(expr, off):
@@ -245,15 +333,20 @@ def _shift(expr, off):
         return ("look", expr[1], expr[2] + off)
     if k == "sub":
         return ("sub", _shift_node(expr[1], off))
-    if k in ("pairfst", "pairsnd", "inc"):
+    if k in ("pairfst", "pairsnd", "inc", "some"):
         return (k, _shift(expr[1], off))
-    if k == "tuple":
-        return ("tuple", [_shift(e, off) for e in expr[1]])
+    if k in ("tuple", "vec"):
+        return (k, [_shift(e, off) for e in expr[1]])
+    if k == "vecpush":
+        return ("vecpush", _shift(expr[1], off), _shift(expr[2], off))
     return expr
 
 
 def _shift_node(n: Node, off):
-    return Node(n.kind, n.id, [_shift(a, off) for a in n.args], n.ty)
+    n2 = Node(n.kind, n.id, [_shift(a, off) for a in n.args], n.ty)
+    if hasattr(n, "argkinds"):
+        n2.argkinds = n.argkinds
+    return n2
 
 
 def expand_alt_node(g, defs, nt, alt):
@@ -261,12 +354,7 @@ def expand_alt_node(g, defs, nt, alt):
     lookarounds left symbolic as ("look", kind, pos) to be resolved in the outermost production)."""
     out = []
     for leaves, exprs in expand_alt(g, defs, nt, alt):
-        vals = []
-        for e in exprs:
-            if e[0] == "subnode":
-                vals.append(("sub", _shift_node(e[1], e[2])))
-            else:
-                vals.append(e)
+        vals = list(exprs)
         # bindings
         names = {}
         selected = []
@@ -297,7 +385,9 @@ def expand_alt_node(g, defs, nt, alt):
                 node = Node("default", 0, [("tuple", selected)], ty)
         elif act[0] in ("user", "fallible"):
             args = [names[a[1]] if isinstance(a, tuple) else names[a] for a in act[2]]
+            kinds = [a[0] if isinstance(a, tuple) else "u8" for a in act[2]]
             node = Node(act[0], act[1], args, ty)
+            node.argkinds = kinds
         elif act[0] == "userall":
             node = Node("user", act[1], list(selected), ty)
         elif act[0] == "mutinc":
@@ -327,11 +417,16 @@ def _resolve_looks(expr, nleaves):
             return ("empty",)
     if k == "sub":
         n = expr[1]
-        return ("sub", Node(n.kind, n.id, [_resolve_looks(a, nleaves) for a in n.args], n.ty))
-    if k in ("pairfst", "pairsnd", "inc"):
+        n2 = Node(n.kind, n.id, [_resolve_looks(a, nleaves) for a in n.args], n.ty)
+        if hasattr(n, "argkinds"):
+            n2.argkinds = n.argkinds
+        return ("sub", n2)
+    if k in ("pairfst", "pairsnd", "inc", "some"):
         return (k, _resolve_looks(expr[1], nleaves))
-    if k == "tuple":
-        return ("tuple", [_resolve_looks(e, nleaves) for e in expr[1]])
+    if k in ("tuple", "vec"):
+        return (k, [_resolve_looks(e, nleaves) for e in expr[1]])
+    if k == "vecpush":
+        return ("vecpush", _resolve_looks(expr[1], nleaves), _resolve_looks(expr[2], nleaves))
     return expr
 
 
@@ -349,4 +444,12 @@ def spec_productions(g: Grammar):
                 if key in out:
                     raise ValueError("corpus grammar %s: two alternatives with the same production %r" % (g.name, key))
                 out[key] = SpecProd(n.name, leaves, root, TYCLASS[n.ty])
+    # the builtin `X+` nonterminals: X+ = X => vec![x] ; X+ = X+ X => push
+    for name, plus in plus_nonterminals(g).items():
+        for leaves, vals in expand_seq(g, defs, [plus.sym]):
+            v = _resolve_looks(vals[0], len(leaves))
+            out[(name, tuple(l.name for l in leaves))] = SpecProd(name, leaves, ("vec", [v]), "vec")
+            leaves2 = [Leaf(name, "vec")] + leaves
+            v2 = _resolve_looks(_shift(vals[0], 1), len(leaves2))
+            out[(name, tuple(l.name for l in leaves2))] = SpecProd(name, leaves2, ("vecpush", ("leaf", 0), v2), "vec")
     return out
